@@ -31,10 +31,15 @@ import (
 // ---------------------------------------------------------------------------------------------
 
 type RunFan struct {
-	ID         string
-	Spec       FanSpec
-	Theta      int // plant: the fan turns iff pwm > Theta
-	Quant      int // >1: the pwm register quantises to multiples of Quant
+	ID    string
+	Spec  FanSpec
+	Theta int // plant: the fan turns iff pwm > Theta
+	Quant int // >1: the pwm register quantises to multiples of Quant
+	// QMode: how the register treats a written value - "" / "floor": rounds down to a multiple of Quant (255 stays 255);
+	// "ceil": rounds up to the next multiple of Quant (capped at 255); "scale": an exact register behind a configured
+	// pwmMap v -> v*100/255 (a device with a range of 0..100) - with the last two the lowest REQUEST that reaches a device
+	// value differs from that value
+	QMode      string
 	Pwm0       int
 	Mode0      int
 	StartDelay time.Duration // Run of this fan starts this much later
@@ -183,10 +188,21 @@ func NewRunHarness(rec *Recorder, cfg RunCfg) *RunHarness {
 		spec.NoAttach = true
 		fan := BuildFanP(env, spec, rf.ID, curveID, rf.Pwm0, rf.Mode0, px)
 		fans.RegisterFan(fan)
-		if rf.Quant > 1 {
+		if rf.Quant > 1 && rf.QMode != "scale" {
 			q := rf.Quant
+			mode := rf.QMode
 			// quantising register; the top level is full speed (255)
 			qf := func(v int) int {
+				switch mode {
+				case "ceil":
+					if v <= 0 {
+						return 0
+					}
+					if w := ((v + q - 1) / q) * q; w < 255 {
+						return w
+					}
+					return 255
+				}
 				if v >= 255 {
 					return 255
 				}
@@ -426,7 +442,7 @@ func (h *RunHarness) fanInfo() []Ev {
 			"cfgMap": sp.CfgMap != nil, "cfgMinMax": sp.CfgMin != nil && sp.CfgMax != nil, "neverStop": sp.NeverStop,
 			"pwm": h.Env.Get(st.px + "pwm"), "mode": h.modeOf(st), "theta": st.rf.Theta,
 			"rest": st.rf.Rest[:], "hadData": h.hasData(st), "hadMap": h.hasMap(st), "n": h.Cfg.Window,
-			"min": st.fan.GetMinPwm(), "max": st.fan.GetMaxPwm(), "stallOnly": st.rf.CurveErrAt < 0, "rpmPollMs": h.Cfg.RpmPollMs, "algT": sp.Alg.T, "quant": st.rf.Quant,
+			"min": st.fan.GetMinPwm(), "max": st.fan.GetMaxPwm(), "stallOnly": st.rf.CurveErrAt < 0, "rpmPollMs": h.Cfg.RpmPollMs, "algT": sp.Alg.T, "quant": st.rf.Quant, "qmode": qmodeOf(st.rf),
 			"cfgStart": sp.CfgStart != nil})
 	}
 	return out
@@ -557,4 +573,11 @@ func (h *RunHarness) Reg(id, reg string) int { return h.Env.Get(h.fs[id].px + re
 func (h *RunHarness) Poke(id, reg string, v int) {
 	h.Env.Set(h.fs[id].px+reg, v)
 	h.Rec.Emit(Ev{"ev": "Poke3", "fan": id, "reg": reg, "val": v})
+}
+
+func qmodeOf(rf RunFan) string {
+	if rf.QMode == "" {
+		return "floor"
+	}
+	return rf.QMode
 }
